@@ -234,14 +234,14 @@ Lemma ascii_digit_small : forall c, ascii_digit c = true -> c < 128.
 Proof. intros c H. unfold ascii_digit in H. lia. Qed.
 
 (* ---- words ---- *)
-Lemma span_alnum_exact : forall w R, forallb (is_alnum no_ud) w = true ->
+Lemma span_alnum_exact : forall w R, forallb (is_alnum ud) w = true ->
   match R with [] => True | t :: _ => is_alnum ud t = false end ->
   span_alnum ud (w ++ R) = (w, R).
 Proof.
   induction w as [|c w IH]; intros R Hw HR; cbn [app].
   - destruct R as [|t R']; cbn [span_alnum]; [reflexivity|]. rewrite HR. reflexivity.
   - cbn [forallb] in Hw. apply andb_true_iff in Hw. destruct Hw as [Hc Hw].
-    cbn [span_alnum]. rewrite (alnum_ud _ Hc). rewrite (IH R Hw HR). reflexivity.
+    cbn [span_alnum]. rewrite Hc. rewrite (IH R Hw HR). reflexivity.
 Qed.
 
 Lemma mux_auto_ud : forall w a b, forallb (is_alnum no_ud) w = true -> mux_auto ud w a b = mux_auto no_ud w a b.
@@ -256,6 +256,15 @@ Qed.
 Lemma classify_text_ud : forall c w, forallb (is_alnum no_ud) w = true -> classify_text ud c w = classify_text no_ud c w.
 Proof. intros c w Hw. unfold classify_text. rewrite (mux_auto_ud _ _ _ Hw). reflexivity. Qed.
 
+(* ASCII words keep their classification under every digit class that is false on ASCII *)
+Lemma wf_word_up : forall k v, wf_word no_ud k v = true -> wf_word ud k v = true.
+Proof.
+  intros k [|c w] H; [discriminate|]. cbn [wf_word] in *.
+  apply andb_true_iff in H. destruct H as [H Hk]. apply andb_true_iff in H. destruct H as [Hc Hw].
+  rewrite Hc, (classify_text_ud _ _ Hw), Hk. cbn [andb]. rewrite andb_true_r.
+  rewrite forallb_forall in *. intros x Hx. apply alnum_ud. apply Hw; exact Hx.
+Qed.
+
 Lemma tkind_eqb_eq : forall a b, tkind_eqb a b = true -> a = b.
 Proof. intros a b H. destruct a, b; try reflexivity; discriminate H. Qed.
 
@@ -263,7 +272,7 @@ Lemma letter_facts : forall c, is_letter c = true -> (c =? 0) = false /\ is_spac
 Proof. intros c H. unfold is_letter, is_space in *. split; lia. Qed.
 
 Lemma scan_word : forall k c w R,
-  wf_word k (c :: w) = true ->
+  wf_word ud k (c :: w) = true ->
   match R with [] => True | t :: _ => is_term t = true /\ (t =? ch_minus) = false end ->
   sa c (w ++ R) = (k, w, R).
 Proof.
@@ -271,7 +280,7 @@ Proof.
   apply andb_true_iff in Hwf. destruct Hwf as [Hwf Hk]. apply andb_true_iff in Hwf. destruct Hwf as [Hc Hw].
   destruct (letter_facts _ Hc) as [H0 Hs]. unfold scan_after'. rewrite H0, Hs, Hc.
   rewrite span_alnum_exact; [|exact Hw|].
-  - rewrite (classify_text_ud _ _ Hw). rewrite (tkind_eqb_eq _ _ Hk). reflexivity.
+  - rewrite (tkind_eqb_eq _ _ Hk). reflexivity.
   - destruct R as [|t R']; [exact I|]. destruct HR as [Ht Hm]. apply term_not_alnum; assumption.
 Qed.
 
@@ -539,7 +548,7 @@ Lemma removelast_app1 : forall (v : list N) x, removelast (v ++ [x]) = v.
 Proof. intros v x. rewrite removelast_app by discriminate. cbn. apply app_nil_r. Qed.
 
 Lemma Lx_tok : forall k v R ts,
-  tok_wf k v -> ok_after k v R = true -> Lx R ts -> Lx (piece_text (Tk k v) ++ R) ((k, v) :: ts).
+  tok_wf ud k v -> ok_after k v R = true -> Lx R ts -> Lx (piece_text (Tk k v) ++ R) ((k, v) :: ts).
 Proof.
   intros k v R ts Hwf Hok HL.
   destruct k; cbn [tok_wf] in Hwf; try contradiction.
@@ -572,7 +581,7 @@ Proof.
 Qed.
 
 (* ---- the pieces ---- *)
-Lemma Lx_pieces : forall ps tail ts, pok ps tail -> Lx tail ts -> Lx (render ps ++ tail) (toks_of ps ++ ts).
+Lemma Lx_pieces : forall ps tail ts, pok ud ps tail -> Lx tail ts -> Lx (render ps ++ tail) (toks_of ps ++ ts).
 Proof.
   induction ps as [|p ps IH]; intros tail ts Hp HL; [exact HL|].
   unfold render, toks_of. cbn [flat_map]. fold (render ps) (toks_of ps).
@@ -581,7 +590,7 @@ Proof.
   - destruct Hp as [Hwf [Hok Hp]]. cbn [app]. apply Lx_tok; [exact Hwf|exact Hok|]. apply IH; assumption.
 Qed.
 
-Lemma Lx_render : forall ps, pok ps [] -> Lx (render ps) (toks_of ps ++ [eof_tok]).
+Lemma Lx_render : forall ps, pok ud ps [] -> Lx (render ps) (toks_of ps ++ [eof_tok]).
 Proof.
   intros ps Hp. pose proof (Lx_pieces ps [] [eof_tok] Hp Lx_nil) as H. rewrite app_nil_r in H. exact H.
 Qed.
@@ -629,7 +638,7 @@ Proof.
 Qed.
 
 (* lex_print_tokens: the parser sees exactly the tokens the writer printed, then end of input *)
-Theorem lex_print_tokens : forall ps, pok ps [] ->
+Theorem lex_print_tokens : forall ps, pok (peek_digits ud) ps [] ->
   tokens_of_text (render ps) = Some (toks_of ps ++ [eof_tok]).
 Proof.
   intros ps Hp. apply Lx_tokens_of_text. apply Lx_render; [exact peek_digits_ok|exact fdf_ok|exact Hp].
